@@ -158,6 +158,15 @@ def programs(tier):
            "structs-of-integers:control": ("let _ = string_println(bool_to_string(PI { a: 1, b: 2 } == PI { a: 1, b: 2 }) + bool_to_string(PI { a: 1, b: 2 } == PI { a: 1, b: 3 }));", ["truefalse"])}
     for n, (stmt, lines) in eqs.items():
         add("equality-operands", n, "struct HV { v: Vec[int32] }\nstruct PI { a: int32, b: int32 }\n" + MAINH + "    " + stmt + "\n" + MAINT, lines or ["?"])
+    # ---- a refutable `let` (the pattern does not cover the type) followed by a value of another type than unit: the failure branch
+    # calls the `missing` helper, whose result is `struct{}` at every type (the OPEN finding C02-missing-helper-returns-unit seen
+    # from a second construct)
+    ropt = "enum Opt { Som(int32), Non }\n"
+    for rty, body, show in (("int32", "v", "int32_to_string(first(Opt::Som(4)))"), ("string", "int32_to_string(v)", "first(Opt::Som(4))"), ("bool", "v > 3", "bool_to_string(first(Opt::Som(4)))")):
+        add("refutable-let", f"{rty}-continuation", ropt + f"fn first(o: Opt) -> {rty} {{\n    let Opt::Som(v) = o;\n    {body}\n}}\n" + MAINH +
+            f"    let _ = string_println({show});\n" + MAINT, ["4" if rty != "bool" else "true"])
+    add("refutable-let", "unit-continuation:control", ropt + "fn first(o: Opt) -> unit {\n    let Opt::Som(v) = o;\n    let _ = string_println(int32_to_string(v));\n    ()\n}\n" + MAINH +
+        "    let _ = first(Opt::Som(4));\n" + MAINT, ["4"])
     # ---- an `extern type` of a Go package is emitted as `type T = pkg.T`: the import of pkg has to stay while the alias does, also
     # when no function of that package is called
     ext = "extern type Time\n\nextern \"go\" \"time\" \"Now\" now() -> Time\n\n"
